@@ -2,22 +2,33 @@
    Property theorems only.  Model: Obj/SceneGraph.v (tied to hippolyzer/lib/client/object_manager.py and
    hippolyzer/lib/proxy/object_manager.py by the correspondence check of harness/props/c14.py).
 
-   What is proved here, for ALL histories: the index clause of the statement ("lookup by local ID and by
-   full ID agree and contain the same objects", Idx), and the cancellation of pending requests on region
-   teardown.  The full invariant of the design,
+   The invariant of the design is  WF w := Idx w /\ Tree w /\ (no step returns None) /\ (futures clauses), with
 
-     WF w := Idx w
-          /\ (c in children(p) <-> c tracked /\ parent_id c = lid p <> 0 /\ same region /\ p tracked; NoDup)
-          /\ (c in orphans[p]  <-> c tracked /\ parent_id c = p <> 0 /\ p untracked in that region; NoDup)
-          /\ step never returns None (no handler raises)
-          /\ kill l / untrack leave no pending future for l,
+     Idx w  : lookup by local id and by full id agree and hold the same objects          (SceneGraphProofs.v)
+     Tree w : (C1/C2) c in children(p) <-> c tracked /\ parent_id c = lid p <> 0 /\ same region /\ p tracked,
+              (C3) children duplicate-free,
+              (O1/O2) c in orphans[p] <-> c tracked /\ parent_id c = p <> 0 /\ p untracked in that region,
+              (O3) orphan lists duplicate-free                                             (SceneGraphTree.v)
 
-   is NOT proved in Coq for the children / orphans / no-raise / kill-cancels clauses; those clauses are checked
-   after every step on the real implementation and against this model by the correspondence harness only.
+   PROVED for all histories (Qed, closed): Idx and Tree are preserved by EVERY event kind (C14_step_idx_partial,
+   C14_step_tree_partial): ObjectUpdate / ObjectUpdateCompressed of new and of known objects incl. re-parenting,
+   local-id change and region move with orphan adoption, ImprovedTerseObjectUpdate, ObjectUpdateCached,
+   ObjectProperties, KillObject with its full cascade (known object with descendants, unknown id with orphans,
+   avatars surviving as orphans), region teardown, track region, the three request kinds; hence after every history
+   (C14_history_tree_partial); adoption / orphan-holding corollaries; cancellation of requests on teardown.
+   Hypotheses (input_tree_ok): an object update names a tracked region (see C14_untracked_region_refuted), does not
+   give a local id owned by another live object, and does not (re)index the object under a local id equal to the
+   parent id it carries at that moment - for new objects and region moves this is the statement's "no parent cycle"
+   for a 1-cycle; for a local-id change inside a region it is the OLD parent id, which is an extra hypothesis beyond
+   the statement (a proof gap, not a defect: the correspondence exercises it).  No acyclicity hypothesis is needed
+   (the theorems are about steps that return Some).
+   NOT PROVED in Coq (correspondence + impl-level oracle only): that no step returns None (incl. that the kill
+   fuel suffices under acyclicity), the Parent back-link, requests cancelled on kill / resolved on update, the
+   reference-set refinement (abs (run h) = reference h).
    The full statement is false of the (faithful) model outside the hypothesis "updates name a tracked region":
    see C14_untracked_region_refuted with its witness history (a recorded known finding). *)
 From Coq Require Import NArith List Bool.
-From HV Require Import Obj.SceneGraph Obj.SceneGraphProofs.
+From HV Require Import Obj.SceneGraph Obj.SceneGraphProofs Obj.SceneGraphTree Obj.SceneGraphKill.
 Import ListNotations.
 Open Scope N_scope.
 
@@ -46,6 +57,46 @@ Theorem C14_kill_idx : forall n w r l w',
   Idx w -> kill n w r l = Some w' -> Idx w' /\ shrinks w w'.
 Proof. exact kill_Idx. Qed.
 Print Assumptions C14_kill_idx.
+
+(* ---- children / orphan clauses ---- *)
+Theorem C14_init_tree : Tree init.
+Proof. exact init_Tree. Qed.
+Print Assumptions C14_init_tree.
+
+(* every handler preserves the children and orphan clauses.  input_tree_ok w e: ObjectUpdate(Compressed) names a
+   tracked region, does not give a local id owned by another live object, and does not (re)index the object under
+   its own current parent id; every other event kind (incl. KillObject with its cascade): no condition. *)
+Theorem C14_step_tree_partial : forall w e w',
+  Idx w -> Tree w -> input_tree_ok w e -> step w e = Some w' -> Tree w'.
+Proof. exact step_Tree. Qed.
+Print Assumptions C14_step_tree_partial.
+
+Theorem C14_history_tree_partial : forall h w',
+  hist_ok input_tree_ok init h -> run init h = Some w' -> Idx w' /\ Tree w'.
+Proof. intros h w' H R. exact (run_Inv h init w' (conj init_Idx init_Tree) H R). Qed.
+Print Assumptions C14_history_tree_partial.
+
+(* adoption, read off Tree: whenever a tracked object names a tracked parent, it is in that parent's children *)
+Theorem C14_adopted : forall w r rs c cf co p pf po,
+  Tree w -> get_rs w r = Some rs -> aget c (r_local rs) = Some cf -> get_obj w cf = Some co ->
+  o_parent co = p -> p <> 0 -> aget p (r_local rs) = Some pf -> get_obj w pf = Some po ->
+  In (c, cf) (o_children po).
+Proof.
+  intros w r rs c cf co p pf po T E1 E2 E3 Hp Hp0 E4 E5.
+  eapply (tC2 _ _ _ T); eauto; [|intro Hk; discriminate]. split; [unfold epar, no_ovr; congruence|exact Hp0].
+Qed.
+Print Assumptions C14_adopted.
+
+(* ... and is held as an orphan of that id while the parent is unknown *)
+Theorem C14_orphaned : forall w r rs c cf co p,
+  Tree w -> get_rs w r = Some rs -> aget c (r_local rs) = Some cf -> get_obj w cf = Some co ->
+  o_parent co = p -> p <> 0 -> aget p (r_local rs) = None ->
+  exists ls, aget p (r_orphans rs) = Some ls /\ In c ls.
+Proof.
+  intros w r rs c cf co p T E1 E2 E3 Hp Hp0 E4.
+  eapply (tO2 _ _ _ T); eauto. split; [unfold epar, no_ovr; congruence|exact Hp0].
+Qed.
+Print Assumptions C14_orphaned.
 
 (* region teardown cancels every pending request of the region *)
 Theorem C14_clear_cancels : forall w r w',
@@ -112,3 +163,38 @@ Proof.
   exists w. split; [reflexivity|]. split; [|exact (run_Idx _ _ _ init_Idx H R)].
   vm_compute in R. inversion R. reflexivity.
 Qed.
+
+Definition ex_hist_tree : list event :=
+  [ETrack 1; ETrack 2;
+   EFull false 1 3 3 2 false 1; EFull false 1 4 4 2 true 1; EFull true 1 2 2 1 false 1; EFull false 1 1 1 0 false 1;
+   EReqObj 1 2; ETerse 1 3 2; EProps 3 1; ECached 1 3 1 2;
+   EFull false 1 3 3 1 false 2;            (* re-parent 3 under 1 *)
+   EFull false 2 2 5 0 false 1;
+   EKill 1 3; EKill 1 7;                   (* a leaf; an unknown id without orphans *)
+   EFull false 1 5 3 4 false 1;            (* full id 3 again, under the avatar *)
+   EFull false 2 1 1 0 false 2;            (* 1 moves to region 2: its child 2 becomes an orphan *)
+   EFull false 1 6 2 0 false 1;            (* local id of 2 changes: its children become orphans of 2 *)
+   EFull true 1 2 5 0 false 1;             (* 5 comes back from region 2 as local id 2 and adopts them *)
+   EReqMissing 1;
+   EFull false 1 7 6 6 false 1;            (* an orphan of 6 (= local id of object 2) ... adopted at once *)
+   EKill 1 9;                              (* unknown id, no orphans *)
+   EKill 1 2;                              (* cascade: 5 at local id 2 dies with its non-avatar children, the avatar survives *)
+   EKill 1 6;                              (* cascade through object 2 and its child 6 *)
+   EClear 2; ETrack 2].
+
+Example C14_ex_history_tree :
+  hist_ok input_tree_ok init ex_hist_tree /\
+  exists w, run init ex_hist_tree = Some w /\ Idx w /\ Tree w.
+Proof.
+  assert (H : hist_ok input_tree_ok init ex_hist_tree) by (apply hist_tree_okb_ok; vm_compute; reflexivity).
+  split; [exact H|].
+  destruct (run init ex_hist_tree) as [w|] eqn:R; [|vm_compute in R; discriminate].
+  exists w. split; [reflexivity|]. exact (run_Inv _ _ _ (conj init_Idx init_Tree) H R).
+Qed.
+
+(* the state that history ends in: the kill cascades removed objects 5, 2 and 6; the avatar 4 survived the kill of its
+   parent (local id 2) and is held as an orphan of 2; object 3 is still its child *)
+Example C14_ex_history_tree_end :
+  exists w o rs, run init ex_hist_tree = Some w /\ length (w_full w) = 2%nat /\ get_obj w 4 = Some o /\ o_av o = true /\
+    o_parent o = 2 /\ o_children o = [(5, 3)] /\ get_rs w 1 = Some rs /\ aget 2 (r_orphans rs) = Some [4].
+Proof. vm_compute. do 3 eexists. repeat split. Qed.
